@@ -30,8 +30,11 @@ META = {
             "decimals (multiples of 1/2, 1/4, 1/8) for EUC_2D / CEIL_2D / "
             "ATT, collinear half-integer points (exact rounding ties), "
             "DDD.MM coordinates for GEO; non-trivial = at least one "
-            "distance is not an integer before rounding. tours: all shipped "
-            "tours (enumerated). tour_text: drawn permutations written as "
+            "distance is not an integer before rounding (GEO: up to 16 "
+            "points). tours: all shipped "
+            "tours (enumerated). shipped_coords: every pair of cities of "
+            "every shipped coordinate instance with <= 80 (thorough 320) "
+            "cities, coordinates read by the check's own parser. tour_text: drawn permutations written as "
             "wrapped TOUR_SECTION text, also with a duplicated or missing "
             "node; distinct = distinct cases",
     "assumptions": [
@@ -245,7 +248,9 @@ def geo_points(draw: Any, n: int) -> tuple[str, list[list[str]]]:
 @st.composite
 def coord_cases(draw: Any, max_n: int) -> dict:
     kind = draw(st.sampled_from(["EUC_2D", "CEIL_2D", "ATT", "GEO"]))
-    n = draw(st.integers(2, max_n))
+    # GEO: more cities, because a slightly wrong constant only shows in
+    # about one of 1000 long distances
+    n = draw(st.integers(2, max(max_n, 16) if kind == "GEO" else max_n))
     style, pts = draw(geo_points(n) if kind == "GEO" else planar_points(n))
     name = draw(gen_mat.names())
     head = draw(header(
@@ -464,7 +469,7 @@ def check_roundtrip(ctx: Ctx, case: dict) -> None:
 
 def check_explicit(ctx: Ctx, case: dict) -> None:
     mat, name = case["mat"], case["name"]
-    n, m = mat["n"], mat["m"]
+    m = mat["m"]
     getter = (lambda _name: 0) if case["getter"] else None
     labels = []
     nt = False
@@ -596,6 +601,69 @@ def check_shipped_tour(ctx: Ctx, case: dict) -> None:
     ctx.rec.case(case, nontrivial=True, labels=labels)
 
 
+def read_shipped_coords(name: str) -> tuple[str, list[list[str]]] | None:
+    """(edge weight type, coordinate literals) of a shipped .tsp file, read
+    by the check's own parser; None when the file has no coordinates in one
+    of the four supported metrics."""
+    from importlib import resources
+    text = resources.files("moptipyapps.tsp.tsplib").joinpath(
+        f"{name}.tsp").read_text(encoding="utf-8")
+    kind = None
+    pts: list[list[str]] = []
+    in_coords = False
+    for raw in text.splitlines():
+        ln = raw.strip()
+        if not ln:
+            continue
+        if in_coords:
+            parts = ln.split()
+            if ln == "EOF" or not parts[0].isdigit():
+                break
+            if len(parts) != 3 or int(parts[0]) != len(pts) + 1:
+                raise HarnessError(f"{name}: cannot read line {ln!r}")
+            pts.append(parts[1:])
+        elif ln == "NODE_COORD_SECTION":
+            in_coords = True
+        elif ":" in ln:
+            k, v = ln.split(":", 1)
+            if k.strip() == "EDGE_WEIGHT_TYPE":
+                kind = v.strip()
+    if kind not in ("EUC_2D", "CEIL_2D", "ATT", "GEO") or not pts:
+        return None
+    return kind, pts
+
+
+def check_shipped_coords(ctx: Ctx, case: dict) -> None:
+    """Every distance of a shipped coordinate instance vs the exact oracle."""
+    import numpy as np
+    from moptipyapps.tsp.instance import Instance
+    name = case["name"]
+    got = read_shipped_coords(name)
+    if got is None:
+        raise HarnessError(f"{name} is not a coordinate instance")
+    kind, pts = got
+    inst = sut("from_resource", Instance.from_resource, name)
+    n = len(pts)
+    require(inst.n_cities == n, lambda: f"{name}: {inst.n_cities} cities "
+            f"loaded, file lists {n}")
+    exp = expected_distances(kind, pts)
+    m = np.asarray(inst).tolist()
+    lo, hi = exp["lo"], exp["hi"]
+    for i in range(n):
+        for j in range(i):
+            require(m[i][j] == m[j][i] and lo[i][j] <= m[i][j] <= hi[i][j],
+                    lambda: f"{name}: {kind} distance of cities {i + 1} "
+                    f"{pts[i]} and {j + 1} {pts[j]} is {m[i][j]}/{m[j][i]}, "
+                    f"TSPLIB95 gives {lo[i][j]}..{hi[i][j]}")
+    ctx.rec.label("shipped_coords:pairs", n * (n - 1) // 2)
+    if exp["borderline"]:
+        ctx.rec.label("shipped_coords:borderline_pairs", exp["borderline"])
+    ctx.rec.case(case, nontrivial=True, labels=[
+        f"shipped_coords:{kind}", "shipped_coords:" + (
+            "exact_rule" if exp["exact_rule"] and kind != "GEO"
+            else "guard_band")])
+
+
 def check_tour_text(ctx: Ctx, case: dict) -> None:
     from moptipyapps.tsp import known_optima as ko
     lines, tour, defect = case["lines"], case["tour"], case["defect"]
@@ -634,7 +702,7 @@ def check_tour_text(ctx: Ctx, case: dict) -> None:
 
 SUBS = {"roundtrip": check_roundtrip, "explicit": check_explicit,
         "coords": check_coords, "tours": check_shipped_tour,
-        "tour_text": check_tour_text}
+        "tour_text": check_tour_text, "shipped_coords": check_shipped_coords}
 
 
 def run(ctx: Ctx) -> None:
@@ -647,6 +715,17 @@ def run(ctx: Ctx) -> None:
     if not ctx.warm:
         ctx.rec.subreport("exhaustive_shipped_tours", exhaustive=True,
                           count=done)
+    from moptipyapps.tsp.instance import Instance, ncities_from_tsplib_name
+    limit = ctx.pick(80, 320)
+    small = [nm for nm in sorted(Instance.list_resources(asymmetric=False))
+             if ncities_from_tsplib_name(nm) <= limit
+             and read_shipped_coords(nm) is not None]
+    done = ctx.each("shipped_coords", ctx.my_share(
+        [{"name": nm} for nm in small]), check_shipped_coords,
+        max_violations=5)
+    if not ctx.warm:
+        ctx.rec.subreport(f"exhaustive_shipped_coordinate_instances_up_to_"
+                          f"{limit}_cities", exhaustive=True, count=done)
     max_n = ctx.pick(12, 24)
     ctx.given("roundtrip", roundtrip_cases(max_n), check_roundtrip,
               quick=400, thorough=16 * 2000)
